@@ -322,6 +322,8 @@ def shard_bfs(ctx, shard):
             # quick tier: the full operation set to depth 3 from the empty list and from the list with twins; from the
             # other initial lists to depth 2 (the reduced set reaches depth 3 from every initial list)
             ops_all, depths = OPS, range(1, min(depth, 2) + 1)
+        elif reduced and depth >= 4 and init not in ((), ('G1', 'G2', 'K')):
+            continue        # depth 4 (thorough): from the empty list and from the list with twins
         else:
             ops_all, depths = (OPS_REDUCED if reduced else OPS), ([depth] if reduced else range(1, depth + 1))
         nops = len(ops_all)
